@@ -45,6 +45,16 @@ def get_chunk_dtype_transformer(input_dtype, output_dtype, warn=True):
         output_max = 1.0
 
     work_dtype = np.promote_types(input_dtype, output_dtype)
+    if (np.issubdtype(input_dtype, np.integer)
+            and np.issubdtype(output_dtype, np.integer)
+            and not np.issubdtype(work_dtype, np.integer)):
+        # signed integer -> uint64: NumPy promotes to float64, which cannot
+        # hold every 64-bit integer. Clip in the input type instead (its
+        # range intersected with the output range), the final cast is then
+        # exact.
+        work_dtype = input_dtype
+        output_min = max(output_min, np.iinfo(input_dtype).min)
+        output_max = min(output_max, np.iinfo(input_dtype).max)
 
     round_to_nearest = (
         np.issubdtype(output_dtype, np.integer)
